@@ -184,13 +184,15 @@ theorem EgP.pass {m f} (ev : Nat) : EgP m f (pure (.pass ev)) :=
 
 theorem egressParse_spec (m : Maps) (f : Frame) : EgP m f (egressParse m f) := by
   unfold egressParse
-  simp only [ETH_HLEN, IP_END, OFF_ETHERTYPE, OFF_VIHL, OFF_PROTO, OFF_SADDR, OFF_DADDR]
+  simp only [ETH_HLEN, IP_END, OFF_ETHERTYPE, OFF_VIHL, OFF_PROTO, OFF_SADDR, OFF_DADDR, OFF_FRAG]
   refine ite_P (fun _ => EgP.pass 0) fun h14 => ?_
   refine ld16_bind (P := EgP m f) (by omega) ?_
   refine ite_P (fun _ => EgP.pass 0) fun hproto => ?_
   refine ite_P (fun _ => EgP.pass 0) fun h34 => ?_
   refine ld8_bind (P := EgP m f) (by omega) ?_
   refine ite_P (fun _ => EgP.pass 0) fun hbad => ?_
+  refine ld16_bind (P := EgP m f) (by omega) ?_
+  refine ite_P (fun _ => EgP.pass 0) fun hfrag => ?_
   refine ld32_bind (P := EgP m f) (by omega) ?_
   refine ite_P (fun _ => EgP.pass 0) fun hpriv => ?_
   split
@@ -207,7 +209,7 @@ theorem egressParse_spec (m : Maps) (f : Frame) : EgP m f (egressParse m f) := b
     refine ⟨_, rfl, fun p sub hp => ?_⟩
     cases hp
     refine ⟨rfl, ?_⟩
-    simp only [egressActsOn, natCandidate, l4Off, IP_END, OFF_ETHERTYPE, OFF_VIHL, OFF_PROTO, OFF_SADDR, ETH_HLEN, badIpHeader] at *
+    simp only [egressActsOn, natCandidate, l4Off, IP_END, OFF_ETHERTYPE, OFF_VIHL, OFF_PROTO, OFF_SADDR, OFF_FRAG, ETH_HLEN, badIpHeader] at *
     simp_all
   refine ite_P (fun hudp => ?_) fun hnudp => ?_
   · refine ite_P (fun _ => EgP.pass 0) fun hl4 => ?_
@@ -217,7 +219,7 @@ theorem egressParse_spec (m : Maps) (f : Frame) : EgP m f (egressParse m f) := b
     refine ⟨_, rfl, fun p sub hp => ?_⟩
     cases hp
     refine ⟨rfl, ?_⟩
-    simp only [egressActsOn, natCandidate, l4Off, IP_END, OFF_ETHERTYPE, OFF_VIHL, OFF_PROTO, OFF_SADDR, ETH_HLEN, badIpHeader] at *
+    simp only [egressActsOn, natCandidate, l4Off, IP_END, OFF_ETHERTYPE, OFF_VIHL, OFF_PROTO, OFF_SADDR, OFF_FRAG, ETH_HLEN, badIpHeader] at *
     simp_all
   refine ite_P (fun hicmp => ?_) fun _ => EgP.pass 0
   · refine ite_P (fun _ => EgP.pass 0) fun hl4 => ?_
@@ -225,12 +227,12 @@ theorem egressParse_spec (m : Maps) (f : Frame) : EgP m f (egressParse m f) := b
     refine ⟨_, rfl, fun p sub hp => ?_⟩
     cases hp
     refine ⟨rfl, ?_⟩
-    simp only [egressActsOn, natCandidate, l4Off, IP_END, OFF_ETHERTYPE, OFF_VIHL, OFF_PROTO, OFF_SADDR, ETH_HLEN, badIpHeader] at *
+    simp only [egressActsOn, natCandidate, l4Off, IP_END, OFF_ETHERTYPE, OFF_VIHL, OFF_PROTO, OFF_SADDR, OFF_FRAG, ETH_HLEN, badIpHeader] at *
     simp_all
 
 theorem natCandidate_len {f : Frame} (h : natCandidate f = true) : IP_END ≤ f.length := by
   simp only [natCandidate, Bool.and_eq_true, decide_eq_true_eq] at h
-  exact h.1.1.1
+  exact h.1.1.1.1
 
 /-- everything the C07 theorems need about one run of nat44_egress -/
 theorem egress_spec (m : Maps) (clk : UInt64) (f : Frame) :
@@ -268,13 +270,15 @@ theorem InP.pass {f} : InP f (pure none) := ⟨_, rfl, fun _ h => by cases h⟩
 
 theorem ingressParse_spec (f : Frame) : InP f (ingressParse f) := by
   unfold ingressParse
-  simp only [ETH_HLEN, IP_END, OFF_ETHERTYPE, OFF_VIHL, OFF_PROTO, OFF_SADDR, OFF_DADDR]
+  simp only [ETH_HLEN, IP_END, OFF_ETHERTYPE, OFF_VIHL, OFF_PROTO, OFF_SADDR, OFF_DADDR, OFF_FRAG]
   refine ite_P (fun _ => InP.pass) fun h14 => ?_
   refine ld16_bind (P := InP f) (by omega) ?_
   refine ite_P (fun _ => InP.pass) fun hproto => ?_
   refine ite_P (fun _ => InP.pass) fun h34 => ?_
   refine ld8_bind (P := InP f) (by omega) ?_
   refine ite_P (fun _ => InP.pass) fun hbad => ?_
+  refine ld16_bind (P := InP f) (by omega) ?_
+  refine ite_P (fun _ => InP.pass) fun hfrag => ?_
   refine ld32_bind (P := InP f) (by omega) ?_
   refine ld32_bind (P := InP f) (by omega) ?_
   refine ld8_bind (P := InP f) (by omega) ?_
@@ -287,7 +291,7 @@ theorem ingressParse_spec (f : Frame) : InP f (ingressParse f) := by
     cases hp
     refine ⟨rfl, ?_⟩
     simp only [natCandidate, revKey, revKeyOf, l4Off, IP_END, OFF_ETHERTYPE, OFF_VIHL, OFF_PROTO, OFF_SADDR,
-      OFF_DADDR, ETH_HLEN, badIpHeader] at *
+      OFF_DADDR, OFF_FRAG, ETH_HLEN, badIpHeader] at *
     simp_all [IPPROTO_TCP, IPPROTO_ICMP]
   refine ite_P (fun hudp => ?_) fun hnudp => ?_
   · refine ite_P (fun _ => InP.pass) fun hl4 => ?_
@@ -297,7 +301,7 @@ theorem ingressParse_spec (f : Frame) : InP f (ingressParse f) := by
     cases hp
     refine ⟨rfl, ?_⟩
     simp only [natCandidate, revKey, revKeyOf, l4Off, IP_END, OFF_ETHERTYPE, OFF_VIHL, OFF_PROTO, OFF_SADDR,
-      OFF_DADDR, ETH_HLEN, badIpHeader] at *
+      OFF_DADDR, OFF_FRAG, ETH_HLEN, badIpHeader] at *
     simp_all [IPPROTO_UDP, IPPROTO_ICMP]
   refine ite_P (fun hicmp => ?_) fun _ => InP.pass
   · refine ite_P (fun _ => InP.pass) fun hl4 => ?_
@@ -306,7 +310,7 @@ theorem ingressParse_spec (f : Frame) : InP f (ingressParse f) := by
     cases hp
     refine ⟨rfl, ?_⟩
     simp only [natCandidate, revKey, revKeyOf, l4Off, IP_END, OFF_ETHERTYPE, OFF_VIHL, OFF_PROTO, OFF_SADDR,
-      OFF_DADDR, ETH_HLEN, badIpHeader] at *
+      OFF_DADDR, OFF_FRAG, ETH_HLEN, badIpHeader] at *
     simp_all
 
 theorem ingressTcpState_safe (f : Frame) (l4 : Nat) (h : IP_END ≤ f.length) :
